@@ -715,6 +715,7 @@ func (x *Exec) resetPath() {
 	x.fileData = map[string]fileStub{}
 	x.hb = nil
 	x.syncs = nil
+	x.unsafeT = nil
 	x.procs = 0
 	x.ffApps = x.ffApps[:0]
 	x.pfApps = x.pfApps[:0]
@@ -786,6 +787,7 @@ func (x *Exec) runPath(fn *ssa.Function) {
 				}
 			}
 		}()
+		x.reinitOwnGlobals()
 		x.callSSA(nil, token.NoPos, fn, nil, nil)
 		if x.sched != nil {
 			x.sched.finish(x)
